@@ -150,6 +150,12 @@ def step (s : St) (toks : List String) : Option (St × String × String) :=
         | _, _, some v => some (.ctype (if v == "none" then none else some (mtOf v)))
         | _, _, _ => none
       some ({ s with corrupt := ← c }, "ok", "ok")
+  | "longtag" :: rest => do
+      -- a tag has at most 128 characters (the spec side of `Spec/Grammar`): longer strings are
+      -- refused before anything is sent
+      let n ← (← kv rest "len").toNat?
+      let a := if n ≤ 128 then "sent" else "refused-nothing-sent"
+      some (s, a, a)
   | "push" :: rest => do
       let repo ← kv rest "repo"
       let d ← parseDesc rest
